@@ -33,6 +33,7 @@ type Engine struct {
 	overlay  map[string][]byte
 	replayTemplates map[string]*replayTemplate
 	stableCache map[string][]string
+	decoded  []*Decoded
 }
 
 func newEngine(repo, verifDir string) *Engine {
@@ -93,7 +94,12 @@ func (e *Engine) readContracts() error {
 			}
 			e.specFuncs[sf.Name] = sf
 		}
+		macroTable = e.specFuncs
 		e.lemmas = append(e.lemmas, cf.Lemmas...)
+		for _, d := range cf.Decoded {
+			d.Dir = cf.Dir
+			e.decoded = append(e.decoded, d)
+		}
 	}
 	return nil
 }
@@ -294,9 +300,24 @@ func (e *Engine) newTrans(fn *ssa.Function, c *Contract) *FnTrans {
 		vals: map[ssa.Value]Val{}, in: map[*ssa.BasicBlock]*BState{}, out: map[*ssa.BasicBlock]*BState{},
 		sites: map[ssa.CallInstruction]*Site{}, siteByAlias: map[string]*Site{}, siteDeclOf: map[ssa.CallInstruction][]string{},
 		abstracted: map[string]int{}, usedSpecs: map[string]bool{}, lets: map[string]*Expr{}, siteInstr: map[string]ssa.CallInstruction{}, ghostSites: map[string]*Site{}, loopInfo: map[int]string{},
-		closures: map[string]*ssa.MakeClosure{}, escCache: map[*ssa.Alloc]bool{}, autoInvs: map[*ssa.BasicBlock]func(string, int) string{}, autoPhis: map[*ssa.BasicBlock][]*ssa.Phi{}, ifaceTests: map[string]types.Type{}}
+		closures: map[string]*ssa.MakeClosure{}, heapAnc: map[string][]*frameFact{}, frameDone: map[string]bool{}, escCache: map[*ssa.Alloc]bool{}, autoInvs: map[*ssa.BasicBlock]func(string, int) string{}, autoPhis: map[*ssa.BasicBlock][]*ssa.Phi{}, ifaceTests: map[string]types.Type{}}
 	if c != nil {
 		tr.props = c.Props
+	}
+	tr.smt.onDerive = func(n string, from []string) {
+		var anc []*frameFact
+		seen := map[*frameFact]bool{}
+		for _, f := range from {
+			for _, a := range tr.heapAnc[f] {
+				if !seen[a] {
+					seen[a] = true
+					anc = append(anc, a)
+				}
+			}
+		}
+		if len(anc) > 0 {
+			tr.heapAnc[n] = anc
+		}
 	}
 	return tr
 }
